@@ -279,6 +279,19 @@ theorem scan_iterates (O : Oracles) (r : Reader) :
 theorem pending_new (O : Oracles) (fileName text : Bytes) :
     Reader.pending O (Reader.new text fileName) = readAll O fileName text := rfl
 
+/-- **reset_is_fresh.** `Reset` at ANY moment — before the first `Scan`, between the records of one
+multi-record line, after a fatal error — leaves nothing of the old input in the queue: no record
+is available before the next `Scan`, and what is pending is exactly the records of the new
+input read from the reset state (whose configuration is the labels alone by `reset_linked`, and
+whose only inheritance is the unit metadata of the lines already read). -/
+theorem reset_is_fresh (O : Oracles) (r : Reader) (text fileName : Bytes) (kvs : List (Bytes × Bytes)) :
+    (r.reset text fileName kvs).result = none ∧
+    Reader.pending O (r.reset text fileName kvs) =
+      readLines O (r.st.reset fileName kvs) (splitLines text) ∧
+    (r.st.reset fileName kvs).units = r.st.units := by
+  refine ⟨rfl, ?_, rfl⟩
+  simp [Reader.pending, Reader.reset]
+
 /-- **Termination.** Every function of the model is accepted by Lean as structurally recursive
 on the remaining bytes / fields / lines (no `partial`, no well-founded recursion), so the model
 reader terminates on every input. The one fuel parameter (in `fields`, bounded by the length of
